@@ -116,7 +116,6 @@ def rounded_matches(out, zref, tau):
     frac = np.abs(zref - np.floor(zref) - 0.5)
     bad = (np.abs(d) > 1) | ((d != 0) & (frac > tau))
     # a unit difference at a tie must be toward the other neighbour of the half
-    other = np.where(zref - np.floor(zref) >= 0.5, np.floor(zref), np.ceil(zref))
     # close to a half, rint picks one neighbour; the admissible alternative is the other neighbour
     alt = np.where(r == np.floor(zref), np.ceil(zref), np.floor(zref))
     bad |= (d != 0) & (out != alt.astype(np.int64))
@@ -139,7 +138,8 @@ def irls(y, valid, lam, p, z0=None, max_pass=10, solver=banded_solve, base_w=Non
     znew = z
     k = 0
     for k in range(1, max_pass + 1):
-        if act.any():
+        if act.any() and (k > 1 or z0 is not None):
+            # pass 1 from the exact zero curve takes its decisions on exact numbers: not fragile
             margin = min(margin, float(np.min(np.abs(y[act] - z[act]))))
         wa = np.where(y > z, p, 1 - p)
         ww = w * wa
